@@ -256,3 +256,25 @@ impl CurveVar<Element, Fq> for ElementVar {
         })
     }
 }
+
+// Verification hook (guard: --cfg decaf377_verif). Additive only: read-only observation of an
+// `ElementVar` that neither forces the lazy evaluation nor builds a curve point (so it also
+// works for the off-curve assignments a cheating prover can produce).
+#[cfg(decaf377_verif)]
+impl ElementVar {
+    /// 0 = Encoding only, 1 = Element only, 2 = EncodingAndElement
+    pub fn verif_lazy_state(&self) -> u8 {
+        self.inner.verif_state()
+    }
+
+    /// Assigned affine (x, y) if the element half is already materialised.
+    pub fn verif_xy_values(&self) -> Option<(Fq, Fq)> {
+        let e = self.inner.verif_peek_element()?;
+        Some((e.inner.x.value().ok()?, e.inner.y.value().ok()?))
+    }
+
+    /// Assigned encoding if the encoding half is already materialised.
+    pub fn verif_encoding_value(&self) -> Option<Fq> {
+        self.inner.verif_peek_encoding()?.value().ok()
+    }
+}
